@@ -517,14 +517,17 @@ func (pe *parseEval) function(fn *ssa.Function) *core.DFA {
 				pl = pl.Intersect(pe.subParserLang(u))
 			}
 			return pe.lib.hostPortParse(hl, pl)
-		case "bytes.SplitN":
+		case "bytes.SplitN", "bytes.Split":
 			sepC, ok := core.Through(core.Peel(c.Call.Args[1])).(*ssa.Const)
 			if !ok || sepC.Value == nil {
-				return pe.fail("%s: SplitN separator is not constant", fn.Name())
+				return pe.fail("%s: Split separator is not constant", fn.Name())
 			}
 			sep := constant.StringVal(sepC.Value)
-			if k, _ := core.ConstInt(c.Call.Args[2]); k != 2 {
-				return pe.fail("%s: SplitN with n != 2", fn.Name())
+			splitAll := name == "bytes.Split"
+			if !splitAll {
+				if k, _ := core.ConstInt(c.Call.Args[2]); k != 2 {
+					return pe.fail("%s: SplitN with n != 2", fn.Name())
+				}
 			}
 			piece := func(i int64) func(ssa.Value) bool {
 				return func(v ssa.Value) bool {
@@ -550,11 +553,17 @@ func (pe *parseEval) function(fn *ssa.Function) *core.DFA {
 				l1 = l1.Intersect(pe.subParserLang(u))
 				n1++
 			}
-			if n0 == 0 || n1 == 0 {
-				return pe.fail("%s: a piece of the split is not parsed", fn.Name())
+			if n0+n1 == 0 {
+				return pe.fail("%s: no piece of the split is handed to a sub-parser", fn.Name())
 			}
 			// the split happens at the FIRST separator
 			noSep := core.MustLang(`(?s).*`).Minus(core.MustLang(`(?s).*` + syntaxQuote(sep) + `(?s).*`))
+			if splitAll {
+				// bytes.Split cuts at EVERY separator: with two pieces used (and the usual len == 2 test)
+				// neither piece can contain the separator; text with a second separator is rejected or
+				// loses its tail, so it is not in the language that round-trips
+				l1 = l1.Intersect(noSep)
+			}
 			return l0.Intersect(noSep).Concat(core.LangLiteral(sep)).Concat(l1)
 		}
 	}
